@@ -44,11 +44,12 @@ EXTENDS Integers, Sequences, FiniteSets, Json, TLC
 CONSTANTS NH,          \* pool-answerable hash ids 1..NH
           MaxBlocks,   \* light blocks received in one behaviour
           MaxSteps,    \* bound on the number of steps after the first
+          Bases,       \* first hash id of a block's segment heads
           Layouts,     \* layouts offered (sequences over {"S","G2","G3"})
           Counts,      \* announced txCount values offered besides the true one
           Lens,        \* announced hash-list lengths offered besides the true one
           NilMiner,    \* BOOLEAN: blocks without miner tx offered
-          Kinds,       \* pool answer kinds offered to PoolUpdate besides "absent"
+          Kinds,       \* pool answer kinds offered to PoolUpdate besides "absent" and the kinds pending blocks expect
           InitPools,   \* "empty" | "truth" : initial pool; "truth" = any subset of the first block's true txs
           MalClasses,  \* classes of malformed input on the other receive paths
           GuardFit,    \* TRUE: buildPendBlock checks that a group fits into the block (the repaired code)
@@ -171,6 +172,12 @@ Pending == {i \in 1..Len(blocks) : st[i].phase = "pend"}
 Wanted == {h \in 1..NH : \E i \in Pending : \E p \in 0..(blocks[i].n - 1) :
                             st[i].c[p + 1].k = "nil" /\ HashAt(blocks[i], p) = h}
 
+\* kinds the pending blocks expect behind hash h (the true transactions)
+ExpectedKinds(h) == {TruthCell(blocks[i], p).k : <<i, p>> \in
+                       {ip \in Pending \X (0..7) : /\ ip[2] < blocks[ip[1]].n /\ ip[2] < TrueN(blocks[ip[1]].lay)
+                                                    /\ st[ip[1]].c[ip[2] + 1].k = "nil"
+                                                    /\ HashAt(blocks[ip[1]], ip[2]) = h}}
+
 \* the pool changes (a transaction / group arrives, is mined or evicted)
 PoolUpdate(h, k) ==
   /\ Live /\ Pending # {} /\ h \in Wanted /\ pool[h] # k
@@ -221,14 +228,15 @@ RecvMalformed(c) ==
 
 \* closing step: a fresh well-formed light block whose transactions are present is
 \* posted at once, a second one with a missing transaction is requested from its sender
-\* after its timeout by the next loop iteration (which also serves the model's blocks)
+\* after its timeout by the next loop iteration (which also serves the model's blocks); the
+\* validator's reply-collecting loop (manageDeniedPeer) takes one more iteration
 Probe ==
   /\ alive /\ ~probed /\ Len(blocks) > 0
   /\ st' = TickSt
   /\ alive' = ~TickCrashes
   /\ probed' = TRUE
   /\ UNCHANGED <<blocks, pool, steps>>
-  /\ Emit([op |-> "Probe", ret |-> [alive |-> alive', recv |-> "posted", loop |-> "req"], chk |-> Chk'])
+  /\ Emit([op |-> "Probe", ret |-> [alive |-> alive', recv |-> "posted", loop |-> "req", val |-> "ok"], chk |-> Chk'])
 
 AllCounts(lay) == Counts \cup {TrueN(lay)}
 AllLens(lay) == Lens \cup {TrueN(lay)}
@@ -240,11 +248,11 @@ TruthPools(lay) ==
      \A h \in 1..NH : f[h] # "absent" => h <= Len(lay) /\ f[h] = KindOf(lay[h])}
 
 Next ==
-  \/ \E lay \in Layouts, base \in 1..NH, miner \in BOOLEAN :
+  \/ \E lay \in Layouts, base \in Bases, miner \in BOOLEAN :
         \E n \in AllCounts(lay), m \in AllLens(lay) :
            /\ (miner \/ NilMiner)
            /\ RecvLight(lay, base, n, m, miner)
-  \/ \E h \in 1..NH, k \in PoolKinds : PoolUpdate(h, k)
+  \/ \E h \in 1..NH : \E k \in PoolKinds \cup ExpectedKinds(h) : PoolUpdate(h, k)
   \/ (InitPools = "truth" /\ \E lay \in Layouts : \E f \in TruthPools(lay) : SetPool(f))
   \/ \E i \in 1..MaxBlocks : Expire(i)
   \/ Tick
